@@ -963,7 +963,9 @@ func (m *Model) mayHaveBeenPruned(e *ED, now time.Time) bool {
 
 func (m *Model) revive(e *ED, t0, t1 time.Time) {
 	if m.mayHaveBeenPruned(e, t0) {
-		e.Fuzzy = true
+		// the completed row may have been pruned (then nothing is revived) or not (then it
+		// is outstanding again with lease and retention restarted by the seek)
+		m.fuzzyBySeek(e, t0, t1)
 		m.probe("seek_revive_maybe_pruned")
 		return
 	}
